@@ -150,7 +150,7 @@ class C12(Machine):
         elif k == 'update':
             op['mode'] = rng.choice(['inplace', 'replace'])
             op['clean'] = rng.choice(['computed', 'computed', 'all'])
-        if k in ('compute', 'gradient', 'misfit', 'jvec') and \
+        if k in ('compute', 'gradient', 'misfit', 'jvec', 'jtvec') and \
                 config['max_workers'] > 1 and rng.random() < 0.12:
             op['faults'] = [{'kind': rng.choice(['task_exception',
                                                  'worker_crash']),
